@@ -62,9 +62,9 @@ thread_local! {
 }
 
 fn register_receiver(rx: Receiver<CollectCommand>) {
+    SPSC_RXS.lock().push(rx);
     #[cfg(fastrace_verif)]
     crate::verif::point(crate::verif::P_REGISTER, 0, 0);
-    SPSC_RXS.lock().push(rx);
 }
 
 fn send_command(cmd: CollectCommand) {
